@@ -341,7 +341,7 @@ a_real a_real_log1p(a_real x)
 {
     a_real volatile a = x + 1;
     a_real y = a_real_log(a);
-    if (x < A_REAL_EPSILON && a > 0)
+    if (a > 0 && !isinf(a))
     {
         a_real volatile b = a - 1;
         y -= (b - x) / a;
